@@ -419,9 +419,23 @@ def run_check(prop, tier, seed=0, only=None, nproc=None, serial=False, verbose=T
     for label, params in configs:
         log("[%s/%s] config %s" % (prop, tier, label))
         remaining = total_budget - (time.time() - t_start)
-        budget = max(15.0, min(per_cfg * 2, remaining)) if remaining > 15 else 15.0
-        if '_budget_s' in params:
-            budget = float(params['_budget_s'])
+        if tier == 'thorough' and remaining < 5 and per_config:
+            # total wall budget of the tier used up: the remaining configurations are reported as not explored
+            skipped = Agg()
+            skipped.exhaustive = False
+            skipped.wall_s = 0.0
+            skipped.reasons['tier wall budget exhausted before this configuration was started'] = 1
+            per_config.append((label, params, skipped))
+            log("    -> skipped (tier budget exhausted)")
+            continue
+        if tier == 'thorough':
+            budget = max(10.0, min(per_cfg * 2, remaining))
+            if '_budget_s' in params:
+                budget = min(float(params['_budget_s']), max(10.0, remaining))
+        else:
+            budget = max(15.0, min(per_cfg * 2, remaining)) if remaining > 15 else 15.0
+            if '_budget_s' in params:
+                budget = float(params['_budget_s'])
         if serial:
             agg = explore_serial(modname, params, opts_base, budget_s=budget)
         else:
@@ -471,6 +485,7 @@ def run_check(prop, tier, seed=0, only=None, nproc=None, serial=False, verbose=T
         harness_errors.append(('vacuity', ['required classes never witnessed: %s' % missing]))
     if missing_labels:
         harness_errors.append(('vacuity', ['assertions never reached: %s' % missing_labels]))
+    nskipped = sum(1 for _, _, a in per_config if a.paths == 0 and not a.exhaustive)
     npaths = sum(a.paths for _, _, a in per_config)
     nok = sum(a.status.get('ok', 0) for _, _, a in per_config)
     if npaths == 0 or nok == 0:
@@ -505,9 +520,9 @@ def run_check(prop, tier, seed=0, only=None, nproc=None, serial=False, verbose=T
         code = EXIT_HARNESS
     if code == EXIT_OK:
         inc = sum(a.inconclusive_paths for _, _, a in per_config)
-        print("OK property=%s tier=%s paths=%d queries=%s inconclusive_paths=%d exhaustive=%s wall=%.1fs"
+        print("OK property=%s tier=%s paths=%d queries=%s inconclusive_paths=%d exhaustive=%s configs=%d skipped_for_budget=%d wall=%.1fs"
               % (prop, tier, npaths, json.dumps(ev['coverage']['queries']), inc,
-                 ev['coverage']['exhaustive'], wall))
+                 ev['coverage']['exhaustive'], len(per_config), nskipped, wall))
     return code
 
 
